@@ -132,6 +132,51 @@ def extract():
     else:
         raise ExtractError(f"highest_end_offset: `{b}` not recognised")
 
+    # ---- request_resume implicit ACK, wait_for_reconnect test order, advance_to_file resets ----------
+    b = _norm(fn_body(tc, "request_resume"))
+    if re.search(r"if last_received_offset > (\w+)\.acked_offset && last_received_offset <= \1\.sent_offset \{ \1\.acked_offset = last_received_offset; \}", b):
+        facts["resumeCap"] = True
+    elif re.search(r"if last_received_offset > (\w+)\.acked_offset \{ \1\.acked_offset = last_received_offset; \}", b):
+        facts["resumeCap"] = False
+    else:
+        raise ExtractError("request_resume: implicit ACK `if last_received_offset > G.acked_offset [&& … <= G.sent_offset] { G.acked_offset = … }` not recognised")
+    b = fn_body(tc, "wait_for_reconnect")
+    pc, pp = b.find(".cancelled"), b.find(".pending_resume.take()")
+    if pc < 0 or pp < 0:
+        raise ExtractError("wait_for_reconnect: cancel test / pending_resume.take() not found")
+    facts["reconnCancelFirst"] = pc < pp
+    b = fn_body(tc, "advance_to_file")
+    sts = statements(b)
+    facts["advanceDropsPending"] = any(re.fullmatch(r"\w+\.pending_resume = None;", st) for st in sts)
+    facts["advanceKeepsCancel"] = "cancelled" not in b
+    for need in (r"\.sent_offset = 0;", r"\.acked_offset = 0;", r"\.replay\.clear\(\);", r"\.current_file_index = next_file_index;"):
+        if not any(re.fullmatch(r"\w+" + need, st) for st in sts):
+            raise ExtractError(f"advance_to_file: top-level statement `G{need}` not found")
+
+    # ---- DEFAULT_* constants, `new` = with_replay_capacity(window, DEFAULT_REPLAY_RING_BYTES) -------------
+    def const_u64(name):
+        m = re.search(r"pub const " + name + r"\s*:\s*u64\s*=\s*([0-9_\s\*]+);", src)
+        if not m: raise ExtractError(f"const {name}: `N * N * …` form not recognised")
+        v = 1
+        for t in m.group(1).split("*"):
+            v *= int(t.strip().replace("_", ""))
+        return v
+    def const_secs(name):
+        m = re.search(r"pub const " + name + r"\s*:\s*Duration\s*=\s*Duration::from_secs\(\s*(\d+)\s*\)\s*;", src)
+        if not m: raise ExtractError(f"const {name}: Duration::from_secs(N) not recognised")
+        return int(m.group(1))
+    facts["defaultWindowBytes"] = const_u64("DEFAULT_WINDOW_BYTES")
+    facts["defaultReplayRingBytes"] = const_u64("DEFAULT_REPLAY_RING_BYTES")
+    facts["defaultBackpressureSecs"] = const_secs("DEFAULT_BACKPRESSURE_TIMEOUT")
+    facts["defaultIdleSecs"] = const_secs("DEFAULT_IDLE_TIMEOUT")
+    facts["defaultReconnectSecs"] = const_secs("DEFAULT_RECONNECT_TIMEOUT")
+    facts["newUsesDefaultRing"] = _norm(fn_body(tc, "new")) == "Self::with_replay_capacity(window_bytes, DEFAULT_REPLAY_RING_BYTES)"
+    # the watchdog touches a transfer only through is_cancelled / timestamps / cancel
+    wl = fn_body(src, "watchdog_loop")
+    calls = sorted(set(re.findall(r"\bcontrol\s*\.\s*(\w+)\s*\(", wl)))
+    facts["watchdogCalls"] = calls
+    facts["watchdogOnlyCancels"] = set(calls) <= {"is_cancelled", "timestamps", "cancel"} and "cancel" in calls
+
     # ---- lock regions of every method of TransferControl ------------------------------------
     # Recognised form: every method that reaches the shared state does so through exactly the guard of
     # `self.inner.lock()`; the number of acquisitions per body is reported (1 = the method is one critical
@@ -176,10 +221,21 @@ def render(f):
         "def transferFacts : Transfer.Facts :=",
         f"  {{ creditZero := {b(f['creditZero'])}, creditAdd := .{f['creditAdd']}, creditLe := {b(f['creditLe'])},",
         f"    ackFileTest := {b(f['ackFileTest'])}, ackCap := {b(f['ackCap'])}, ackStrict := {b(f['ackStrict'])},",
-        f"    evictHeldGt := {b(f['evictHeldGt'])}, evictKeepOne := {b(f['evictKeepOne'])}, edgeAdd := .{f['edgeAdd']} }}",
+        f"    evictHeldGt := {b(f['evictHeldGt'])}, evictKeepOne := {b(f['evictKeepOne'])}, edgeAdd := .{f['edgeAdd']},",
+        f"    resumeCap := {b(f['resumeCap'])}, reconnCancelFirst := {b(f['reconnCancelFirst'])},",
+        f"    advanceDropsPending := {b(f['advanceDropsPending'])}, advanceKeepsCancel := {b(f['advanceKeepsCancel'])} }}",
         "/-- For every method of `TransferControl` that takes the mutex: how many times its body calls",
         "`self.inner.lock()` (one acquisition = the whole method is one critical section). -/",
         "def transferLockCalls : List (String × Nat) := [" + ", ".join(f'("{n}", {c})' for n, c in f["lockCalls"]) + "]",
+        f"def defaultWindowBytes : Nat := {f['defaultWindowBytes']}",
+        f"def defaultReplayRingBytes : Nat := {f['defaultReplayRingBytes']}",
+        f"def defaultBackpressureSecs : Nat := {f['defaultBackpressureSecs']}",
+        f"def defaultIdleSecs : Nat := {f['defaultIdleSecs']}",
+        f"def defaultReconnectSecs : Nat := {f['defaultReconnectSecs']}",
+        "/-- `TransferControl::new(w)` is `with_replay_capacity(w, DEFAULT_REPLAY_RING_BYTES)` -/",
+        f"def newUsesDefaultRing : Bool := {b(f['newUsesDefaultRing'])}",
+        "/-- the only methods `watchdog_loop` calls on a transfer are `is_cancelled`, `timestamps`, `cancel` -/",
+        f"def watchdogOnlyCancels : Bool := {b(f['watchdogOnlyCancels'])}",
         "/-- … and how many times it explicitly drops that guard. -/",
         "def transferGuardDrops : List (String × Nat) := [" + ", ".join(f'("{n}", {c})' for n, c in f["guardDrops"]) + "]",
         "end Repe.Gen",
